@@ -29,16 +29,26 @@ HARNESSES = [
 ]
 ENCODED = ["Heap::push_cell", "Heap::reserve", "Heap::append", "Heap::copy_slice_to_end",
            "Heap::copy_pstr_within", "sized_iter_to_heap_list", "Heap::allocate_cstr (reserve half)",
-           "Heap::allocate_pstr (reserve half)", "Heap::compute_pstr_size"]
+           "Heap::allocate_pstr (reserve half)", "Heap::compute_pstr_size",
+           "copier::copy_term (MIR: every returning path, error returns included, restores the source "
+           "term's forwarding cells first - F11)"]
 ASSUME = ["S3: InnerHeap::grow is replaced by realloc's failure contract (returns false, heap "
           "untouched) - this *is* the injected fault",
           "unchanged = byte_len, byte_cap, ptr, resource_err_loc and one arbitrary byte of the "
           "allocation (so: every byte) keep their values"]
 BOUNDS = "capacity 5 cells, fill level symbolic; unwind 10..18"
 OUTSIDE = ("store_resource_error/functor_writer, the propagation macros, throw_resource_error, "
-           "catchability and later goals; allocation failure inside dashu/Vec (aborts in Rust); "
-           "Stack and arena allocation")
+           "catchability and later goals in general (only copy_term's restoration is decided); the "
+           "FiniteMemoryInHeap arm of syntax_error (reading an oversized string panics when the ball is "
+           "fetched: reproduced, recorded in DESIGN 10.4 as outside the claim); allocation failure "
+           "inside dashu/Vec (aborts in Rust); Stack and arena allocation")
+
+
+def mpost(results, tier="quick"):
+    from vlib.mirsmt import c30 as m30
+    return m30.run(thorough=(tier == "thorough"))
 
 
 def run(tier):
-    return kprop.run("C30", HARNESSES, tier, ASSUME, ENCODED, BOUNDS, OUTSIDE)
+    return kprop.run("C30", HARNESSES, tier, ASSUME, ENCODED, BOUNDS, OUTSIDE,
+                     post=lambda res: mpost(res, tier))
